@@ -27,6 +27,9 @@ pub struct Model {
     /// Concurrent histories: take reported timestamps as given (every call is treated
     /// as explicitly timestamped); the C12 clock constraints are not applied.
     pub lenient_ts: bool,
+    /// The environment makes device calls fail: a flush may report an I/O error (it then
+    /// acknowledges nothing). Set by the engines that inject faults.
+    pub faulty_device: bool,
 }
 
 pub const MAX_KEY: usize = 100 * 1024;
@@ -90,6 +93,7 @@ impl Model {
             key_max: BTreeMap::new(),
             observations: Vec::new(),
             lenient_ts: false,
+            faulty_device: false,
         }
     }
 
@@ -551,6 +555,9 @@ impl Model {
                 if self.cfg.persistent && self.cfg.data_blocks <= 12 && out == &Out::err("OutOfSpace") {
                     // A full device may refuse a flush; nothing is acknowledged then.
                     self.observations.push("flush reported OutOfSpace on a tiny device".into());
+                    return Ok(());
+                }
+                if self.faulty_device && matches!(out, Out::Err(e) if e == "IoError" || e == "IndeterminateWrite") {
                     return Ok(());
                 }
                 Self::expect(t, op, Out::Unit, out)
